@@ -64,8 +64,8 @@ META = {
     "id": "C11",
     "level": "proof",
     "technique": "Coq theorems over a literal model of retis_swap_zero / quantis_swap_zero (stop-rule invariants, abstract reversible dynamics: one engine and two different engines, one per ensemble) + scripted-oracle lock-step of the extracted model vs the real functions with two distinguishable engine objects + oracle-only zero swaps with real file-writing TurtleMD engines in one shared worker directory",
-    "text": "Unbounded theorems (any paths, interface values, length limits, engine frame streams, draws, energies) about an executable model of the two zero-swap moves over the current add_to_path stop rule: junction identity as frame identities and as order values (C11_swap_junction_frames, C11_swap_junction), full shape of an accepted swap and the converse sufficient conditions (C11_swap_accepted_shape, C11_swap_accepted_if), validity of both new paths, each below ITS OWN ensemble's length limit (C11_swap_valid; the two limits maxlength([0-]) and maxlength([0+]) are separate inputs of the model and every theorem holds for EVERY pair of limits), a swap that cannot complete a new path below that path's own limit is rejected BTX / FTX (C11_swap_limit_reject), the code before proposed_fixes/C11_zero_swap_own_limits.diff (kept in the model behind the boolean `fixed`: backward container of retis_swap_zero sized with the [0+] limit, quantis_swap_zero reading the [0-] limit for both paths) accepts an incomplete [0-] path / measures the [0+] path against the wrong limit, while the code handles the same inputs correctly (C11_swap_valid_limit_order_refuted, C11_quantis_limit_order_refuted), and coincides with the code when the two limits are equal (C11_before_fix_same_on_equal_limits), the variant that sizes the forward container of the new [0+] path with the [0-] limit accepts an incomplete [0+] path (C11_forward_segment_minus_limit_refuted; C11_variant_is_code_at_plus_limit ties the variant definition to the code), lambda_-1 early rejection with no engine call and no draw (C11_lambda_m1_test, C11_lambda_m1_reject), QuanTIS energy rule u <= min(1,E) with the exponent's signs and the frames the four energies are read from (C11_quantis_accept_iff, C11_quantis_exponent), QuanTIS junction (C11_quantis_junction) and each new path below its own limit for any two limits (C11_quantis_own_limits), validity of the new [0-] path of an accepted QuanTIS swap in ITS OWN ensemble, for any (finite or -inf) left interface lambda_-1 of [0-] and any start condition of [0-]: first frame strictly outside [lambda_-1, lambda_0], interior inside, last frame right of lambda_0, and unless 'L' is in the start condition OF [0-] (ens_set0, not ens_set1) the first frame lies right of lambda_0, i.e. a new [0-] path that left through lambda_-1 is never accepted by an ensemble that only admits starts on the right (C11_quantis_valid_minus; C11_quantis_start_cond: the new [0-] path starts on a side its own start condition allows for the start conditions 'R' and ['L','R']; retis: C11_swap_valid), while with the start condition 'L' ALONE both moves accept a new [0-] path that starts on the right (C11_start_cond_L_only_refuted: concrete witness for retis_swap_zero and quantis_swap_zero; recorded finding, see note), and for an abstract deterministic time-reversible engine (state space X, step T, reversal R with R.R = id, R.T.R.T = id, ord.R = ord) that the swap back is accepted and restores both order sequences (C11_swap_twice_id, C11_swap_twice_restores). Which engine object does what is part of the model (every modelled propagate call names the object it is made on: E0 = engines[-1][0] for [0-], E1 = engines[0][0] for [0+]): an accepted swap runs backward on E0 and forward on E1, every frame of the new [0-] path but the shared point old[0+][1] is a frame of the E0 call's answer and every frame of the new [0+] path but the shared point old[0-][-2] one of the E1 call's (C11_swap_engines); QuanTIS calls E0, E1, E0, E1 (C11_quantis_engines, C11_quantis_junction). With TWO different deterministic dynamics (T0,R0) for [0-] and (T1,R1) for [0+] over one phase space (simulation.ensemble_engines): the streams are the answers of exactly the engines the calls are made on (C11_two_engines_calls), the new [0-] path is the backward T0-trajectory from old[0+][0] plus the shared point and the new [0+] path the shared point plus the forward T1-trajectory from old[0-][-1] (C11_two_engines_segments), and if old [0-] is a T0-trajectory and old [0+] a T1-trajectory the swap back is accepted and both order sequences are restored, assuming time-reversibility of the [0-] engine only (C11_swap_twice_id_two_engines, C11_swap_twice_restores_two_engines; one engine is the special case T0=T1, C11_one_engine_special_case). The model is tied to /repo by running the extracted model and the real select_shoot/retis_swap_zero/quantis_swap_zero on the same old paths, settings, engine streams, draws and energies (all valid [0-]/[0+] pairs over a small integer alphabet, limits incl. exact hits, INDEPENDENT limits for the two ensembles (every ordered pair (maxlength[0-], maxlength[0+]) of a grid needed-1 / needed / needed+1 / needed+2 / much larger around the lengths the two new paths need, for all 8x8 backward x forward stream patterns incl. new paths of the minimal 3 frames, retis and quantis), lambda_minus_one on/off, a finite lambda_-1 for [0-] with each of the start conditions 'R', 'L' and ['L','R'] x retis and QuanTIS (one level of theory: V0 = V1, equal betas; two levels: different energies and betas with E = 1, E < 1 with the draw below / above E, accept_all) x scripted backward dynamics from the first [0+] frame that end LEFT of lambda_-1 (4 patterns, incl. a 3-frame new [0-] path), RIGHT of lambda_0 (3) or never leave the interfaces (2: cut off by the limit) x 4 forward patterns x 3 old [0+] x 2 old [0-] paths x limits around the needed lengths, outcome fixed by the statement (accepted iff both complete new paths are below their own limits AND the new [0-] path starts on a side its own ensemble's start condition allows; a path that left through lambda_-1 under start condition 'R' must be answered 0-L with exactly the complete path), wf high-acceptance swap, quantis with draws around the Metropolis threshold), always with two distinguishable engine objects whose identity is logged per call and per frame and compared with the model's, and by evaluating the property's statement on the implementation's outputs (incl. which engine produced which frames), including double swaps of the real functions with deterministic reversible integer engines: one dynamics for both ensembles and two different dynamics (one per ensemble; new paths must be trajectories of their own ensemble's dynamics, two swaps must restore both sequences; every retis swap of these also compared with the model). ORACLE ONLY, REAL FILES (no model comparison for this family): retis and quantis zero swaps, each run twice (swap and swap back), by two real file-writing TurtleMDEngine objects (double-well system of examples/turtlemd/double_well, built by infretis' engine factory; once with the same parameters for [0-] and [0+], once with two distinguishable levels of theory: timestep 0.025 / potential b=2.0 for [0-], timestep 0.02 / b=2.1 for [0+]) that share ONE worker directory per move as a worker's engines do, from start paths grown by each ensemble's own dynamics through fixed configurations (no random numbers anywhere); on the returned paths: (1) every frame refers to a file that exists and the configuration read back from (file, index) with the engine's own reader has the order parameter stored in the frame, (2) no two propagate calls of one move created or changed the same file (EngineBase.propagate wrapped: directory listing with size, mtime and content hash before/after each call), (3) the junction on the configurations (x, v) read from the files: new[0+][0] = old[0-][-2] and new[0-][-2] = old[0+][0], and (retis, and quantis with one dynamics) new[0+][1] = old[0-][-1], new[0-][-1] = old[0+][1], (4) a valid pair is swapped (the only admitted rejection is QS0/QS1 of the first quantis swap with two levels of theory), the swap back is accepted and restores both order sequences within 1e-6 (same lengths).",
-    "note": "Trusted: Coq kernel; extraction (ExtrOcamlBasic) + OCaml driver; this harness (scripted engines built on plugins.engines.ScriptedEngine and the real add_to_path, scripted rgen, np.exp shim, canonicalisation). No axioms (every Print Assumptions is closed). exp is not modelled: its value E is computed by numpy exactly as the code does and handed to the model as the exact rational of that float; the exponent is compared exactly (dyadic energies/betas). -inf is represented in the model by an integer below every order value of the case. The order-value form of the junction assumes that an engine's first frame carries the order parameter of the phase point it was started from (propagate contract, C12); validity theorems assume ordered interfaces; no theorem and no oracle clause restricts the two length limits (infretis itself hands both ensembles one shared tis_set, i.e. equal limits; unequal limits arise when a caller builds the ensemble dicts itself). Model and theorems are about the code AFTER proposed_fixes/C11_zero_swap_own_limits.diff (retis_swap_zero sizes the backward container with maxlen0 - 1, quantis_swap_zero reads maxlen1 from ens_set1). The code before that repair is the same model at fixed = false (retis_swap_zero_before_fix / quantis_swap_zero_before_fix, request swap0), kept for the two refutation witnesses about the ORIGINAL code. Variant of the code under test: C11 has no generated-parameter file; the check probes the real functions ONCE each (retis_swap_zero with limits 12/5: size of the container handed to the backward run, 11 = repaired, 4 = before the repair; quantis_swap_zero with limits 8/4: size of the container handed to the forward run, 3 = repaired, 7 = before); an unrepaired answer makes the LOCK-STEP compare that move with the before-fix variant of the model so that the correspondence stays meaningful; any other answer keeps the repaired model (and shows up in the lock-step). The oracle never depends on the probe: it always demands that each new path is complete and below its own ensemble's limit, so a tree without the repair is reported with concrete failing inputs (VIOLATION); the probe's answers are recorded in coverage.correspondence.variant. The oracle is total: an exception, an exhausted engine or an answer outside the move's answer domain on an input whose outcome the statement fixes is reported with that input. The swap never reads propagate's success flag, so it is insensitive to the add_to_path repair (C11_stop_rule_irrelevant). The QuanTIS double swap (one and two engines) is checked on the implementation only (no Coq theorem); reversibility of real MD engines is an assumption of the statement itself. Two engines: the Coq theorems allow engine-specific velocity reversals R0, R1 and need reversibility of the [0-] engine only (the [0+] engine is never run backward by the swap); the harness engines share one reversal (v -> -v) as real MD engines do. Which engine object calls dump_phasepoint (engine1 for 'second', engine0 for 'second_last' in the code) is not modelled: a dumped copy holds the same configuration whoever writes it. Engine identity in the lock-step is a label of the engine object (the prescribed orders of a call do not depend on it), in the double swaps it is a different dynamics. quantis_swap_zero has no lambda_-1 early exit: check_config rejects quantis together with lambda_minus_one (so a finite left interface reaches quantis_swap_zero only through a caller that builds the ensemble dicts itself; the start-condition family does exactly that, as it does for start conditions other than the two initiate_ensembles creates). RECORDED FINDING (KNOWN-FINDING, exit status unaffected; not repaired): with a start condition of [0-] that is 'L' alone, retis_swap_zero and quantis_swap_zero accept a new [0-] path that starts on the RIGHT of lambda_0 (both guards only test for a forbidden 'L'; shoot answers such a path BWI); witness interfaces (0,1,2)/(2,2,5), old paths -1 1 3 / 0 3 1, backward run 0 3 -> new [0-] path 3 0 3, theorem C11_start_cond_L_only_refuted; the check prints the KNOWN-FINDING line only for inputs of exactly that class (start condition {'L'}, accepted, new [0-] path starts right of lambda_0) and still reports every OTHER clause of the statement that fails on such an input (the oracle is re-evaluated with the clause taken out); a possible repair is to test the start side against the start condition itself (get_start_point(...) not in set(start_cond)) in both moves. The start-side clause of the oracle is computed from the order values and the case's own interfaces/start condition, not from the model and not from check_interfaces. Real-file family: oracle only (the Coq model has no file system: a frame is an abstract tag there, so file naming, e.g. which counter numbers the trajectory files of a propagation, is outside the model and is checked on the implementation alone); the engines are real TurtleMDEngine objects with all their file I/O (dump_config/_extract_frame, reversed-velocity files, trajectory/msg/conf files named by EngineBase.propagate), only the integrator class is turtlemd's VelocityVerlet handed in through a one-line adapter (TurtleMDEngine passes every integrator a seed argument that VelocityVerlet does not take; with the example's LangevinInertia integrator at small friction (gamma 1e-5, beta 1e12) a double swap restores the sequences only to about 1e-5, measured); each swap runs in a fresh worker directory shared by the two engine objects (infretis moves accepted files out and cleans the directory between moves), both objects are fresh at the first swap (equal numbers of propagations started) and have each started two more at the swap back; tolerance 1e-6 against the 9 decimals of the xyz files; lambda_minus_one and unequal length limits are not part of this family (covered by the scripted families); the two-levels-of-theory quantis scenarios use accept_all (the energy rule is covered by the scripted family), the one-dynamics ones the real rule with the draw 0.5.",
+    "text": "Unbounded theorems (any paths, interface values, length limits, engine frame streams, draws, energies) about an executable model of the two zero-swap moves over the current add_to_path stop rule: junction identity as frame identities and as order values (C11_swap_junction_frames, C11_swap_junction), full shape of an accepted swap and the converse sufficient conditions (C11_swap_accepted_shape, C11_swap_accepted_if), validity of both new paths, each below ITS OWN ensemble's length limit (C11_swap_valid; the two limits maxlength([0-]) and maxlength([0+]) are separate inputs of the model and every theorem holds for EVERY pair of limits), a swap that cannot complete a new path below that path's own limit is rejected BTX / FTX (C11_swap_limit_reject), the code before proposed_fixes/C11_zero_swap_own_limits.diff (kept in the model behind the boolean `fixed`: backward container of retis_swap_zero sized with the [0+] limit, quantis_swap_zero reading the [0-] limit for both paths) accepts an incomplete [0-] path / measures the [0+] path against the wrong limit, while the code handles the same inputs correctly (C11_swap_valid_limit_order_refuted, C11_quantis_limit_order_refuted), and coincides with the code when the two limits are equal (C11_before_fix_same_on_equal_limits), the variant that sizes the forward container of the new [0+] path with the [0-] limit accepts an incomplete [0+] path (C11_forward_segment_minus_limit_refuted; C11_variant_is_code_at_plus_limit ties the variant definition to the code), lambda_-1 early rejection with no engine call and no draw (C11_lambda_m1_test, C11_lambda_m1_reject), QuanTIS energy rule u <= min(1,E) with the exponent's signs and the frames the four energies are read from (C11_quantis_accept_iff, C11_quantis_exponent), QuanTIS junction (C11_quantis_junction) and each new path below its own limit for any two limits (C11_quantis_own_limits), validity of the new [0-] path of an accepted QuanTIS swap in ITS OWN ensemble, for any (finite or -inf) left interface lambda_-1 of [0-] and any start condition of [0-]: first frame strictly outside [lambda_-1, lambda_0], interior inside, last frame right of lambda_0, and unless 'L' is in the start condition OF [0-] (ens_set0, not ens_set1) the first frame lies right of lambda_0, i.e. a new [0-] path that left through lambda_-1 is never accepted by an ensemble that only admits starts on the right (C11_quantis_valid_minus; C11_quantis_start_cond: the new [0-] path starts on a side its own start condition allows for the start conditions 'R' and ['L','R']; retis: C11_swap_valid), while with the start condition 'L' ALONE, which is outside C11's quantifier and which infretis never builds, both moves accept a new [0-] path that starts on the right (C11_start_cond_L_only_refuted: concrete witness for retis_swap_zero and quantis_swap_zero, documentation only, see note), and for an abstract deterministic time-reversible engine (state space X, step T, reversal R with R.R = id, R.T.R.T = id, ord.R = ord) that the swap back is accepted and restores both order sequences (C11_swap_twice_id, C11_swap_twice_restores). Which engine object does what is part of the model (every modelled propagate call names the object it is made on: E0 = engines[-1][0] for [0-], E1 = engines[0][0] for [0+]): an accepted swap runs backward on E0 and forward on E1, every frame of the new [0-] path but the shared point old[0+][1] is a frame of the E0 call's answer and every frame of the new [0+] path but the shared point old[0-][-2] one of the E1 call's (C11_swap_engines); QuanTIS calls E0, E1, E0, E1 (C11_quantis_engines, C11_quantis_junction). With TWO different deterministic dynamics (T0,R0) for [0-] and (T1,R1) for [0+] over one phase space (simulation.ensemble_engines): the streams are the answers of exactly the engines the calls are made on (C11_two_engines_calls), the new [0-] path is the backward T0-trajectory from old[0+][0] plus the shared point and the new [0+] path the shared point plus the forward T1-trajectory from old[0-][-1] (C11_two_engines_segments), and if old [0-] is a T0-trajectory and old [0+] a T1-trajectory the swap back is accepted and both order sequences are restored, assuming time-reversibility of the [0-] engine only (C11_swap_twice_id_two_engines, C11_swap_twice_restores_two_engines; one engine is the special case T0=T1, C11_one_engine_special_case). The model is tied to /repo by running the extracted model and the real select_shoot/retis_swap_zero/quantis_swap_zero on the same old paths, settings, engine streams, draws and energies (all valid [0-]/[0+] pairs over a small integer alphabet, limits incl. exact hits, INDEPENDENT limits for the two ensembles (every ordered pair (maxlength[0-], maxlength[0+]) of a grid needed-1 / needed / needed+1 / needed+2 / much larger around the lengths the two new paths need, for all 8x8 backward x forward stream patterns incl. new paths of the minimal 3 frames, retis and quantis), lambda_minus_one on/off, a finite lambda_-1 for [0-] with each of the start conditions 'R', 'L' and ['L','R'] x retis and QuanTIS (one level of theory: V0 = V1, equal betas; two levels: different energies and betas with E = 1, E < 1 with the draw below / above E, accept_all) x scripted backward dynamics from the first [0+] frame that end LEFT of lambda_-1 (4 patterns, incl. a 3-frame new [0-] path), RIGHT of lambda_0 (3) or never leave the interfaces (2: cut off by the limit) x 4 forward patterns x 3 old [0+] x 2 old [0-] paths x limits around the needed lengths, outcome fixed by the statement (accepted iff both complete new paths are below their own limits AND, for the start conditions 'R' and ['L','R'], the new [0-] path starts on a side its own ensemble's start condition allows; a path that left through lambda_-1 under start condition 'R' must be answered 0-L with exactly the complete path; the 'L'-alone cases are compared with the model and judged by every other clause only), wf high-acceptance swap, quantis with draws around the Metropolis threshold), always with two distinguishable engine objects whose identity is logged per call and per frame and compared with the model's, and by evaluating the property's statement on the implementation's outputs (incl. which engine produced which frames), including double swaps of the real functions with deterministic reversible integer engines: one dynamics for both ensembles and two different dynamics (one per ensemble; new paths must be trajectories of their own ensemble's dynamics, two swaps must restore both sequences; every retis swap of these also compared with the model). ORACLE ONLY, REAL FILES (no model comparison for this family): retis and quantis zero swaps, each run twice (swap and swap back), by two real file-writing TurtleMDEngine objects (double-well system of examples/turtlemd/double_well, built by infretis' engine factory; once with the same parameters for [0-] and [0+], once with two distinguishable levels of theory: timestep 0.025 / potential b=2.0 for [0-], timestep 0.02 / b=2.1 for [0+]) that share ONE worker directory per move as a worker's engines do, from start paths grown by each ensemble's own dynamics through fixed configurations (no random numbers anywhere); on the returned paths: (1) every frame refers to a file that exists and the configuration read back from (file, index) with the engine's own reader has the order parameter stored in the frame, (2) no two propagate calls of one move created or changed the same file (EngineBase.propagate wrapped: directory listing with size, mtime and content hash before/after each call), (3) the junction on the configurations (x, v) read from the files: new[0+][0] = old[0-][-2] and new[0-][-2] = old[0+][0], and (retis, and quantis with one dynamics) new[0+][1] = old[0-][-1], new[0-][-1] = old[0+][1], (4) a valid pair is swapped (the only admitted rejection is QS0/QS1 of the first quantis swap with two levels of theory), the swap back is accepted and restores both order sequences within 1e-6 (same lengths).",
+    "note": "Trusted: Coq kernel; extraction (ExtrOcamlBasic) + OCaml driver; this harness (scripted engines built on plugins.engines.ScriptedEngine and the real add_to_path, scripted rgen, np.exp shim, canonicalisation). No axioms (every Print Assumptions is closed). exp is not modelled: its value E is computed by numpy exactly as the code does and handed to the model as the exact rational of that float; the exponent is compared exactly (dyadic energies/betas). -inf is represented in the model by an integer below every order value of the case. The order-value form of the junction assumes that an engine's first frame carries the order parameter of the phase point it was started from (propagate contract, C12); validity theorems assume ordered interfaces; no theorem and no oracle clause restricts the two length limits (infretis itself hands both ensembles one shared tis_set, i.e. equal limits; unequal limits arise when a caller builds the ensemble dicts itself). Model and theorems are about the code AFTER proposed_fixes/C11_zero_swap_own_limits.diff (retis_swap_zero sizes the backward container with maxlen0 - 1, quantis_swap_zero reads maxlen1 from ens_set1). The code before that repair is the same model at fixed = false (retis_swap_zero_before_fix / quantis_swap_zero_before_fix, request swap0), kept for the two refutation witnesses about the ORIGINAL code. Variant of the code under test: C11 has no generated-parameter file; the check probes the real functions ONCE each (retis_swap_zero with limits 12/5: size of the container handed to the backward run, 11 = repaired, 4 = before the repair; quantis_swap_zero with limits 8/4: size of the container handed to the forward run, 3 = repaired, 7 = before); an unrepaired answer makes the LOCK-STEP compare that move with the before-fix variant of the model so that the correspondence stays meaningful; any other answer keeps the repaired model (and shows up in the lock-step). The oracle never depends on the probe: it always demands that each new path is complete and below its own ensemble's limit, so a tree without the repair is reported with concrete failing inputs (VIOLATION); the probe's answers are recorded in coverage.correspondence.variant. The oracle is total: an exception, an exhausted engine or an answer outside the move's answer domain on an input whose outcome the statement fixes is reported with that input. The swap never reads propagate's success flag, so it is insensitive to the add_to_path repair (C11_stop_rule_irrelevant). The QuanTIS double swap (one and two engines) is checked on the implementation only (no Coq theorem); reversibility of real MD engines is an assumption of the statement itself. Two engines: the Coq theorems allow engine-specific velocity reversals R0, R1 and need reversibility of the [0-] engine only (the [0+] engine is never run backward by the swap); the harness engines share one reversal (v -> -v) as real MD engines do. Which engine object calls dump_phasepoint (engine1 for 'second', engine0 for 'second_last' in the code) is not modelled: a dumped copy holds the same configuration whoever writes it. Engine identity in the lock-step is a label of the engine object (the prescribed orders of a call do not depend on it), in the double swaps it is a different dynamics. quantis_swap_zero has no lambda_-1 early exit: check_config rejects quantis together with lambda_minus_one (so a finite left interface reaches quantis_swap_zero only through a caller that builds the ensemble dicts itself; the start-condition family does exactly that, as it does for start conditions other than the two initiate_ensembles creates). Start condition 'L' ALONE for [0-]: C11's quantifier ranges over path pairs, interface positions, length limits, energies and draws, not over start conditions; infretis itself only ever builds [0-] with 'R' or ['L','R'] (upstream's own QuanTIS mock labels [0-] 'L' with a -inf left interface, i.e. does not treat the label as a constraint). Demanding the start-side clause there would ask more than the property states, so the oracle does NOT apply it to start_cond == {'L'}: those cases stay in the family for the model lock-step (correspondence) and for every other clause of the oracle (junction, limits, interior, end side, engines, energy rule). What the code does there (retis_swap_zero and quantis_swap_zero accept a new [0-] path that starts on the right of lambda_0, their guards only test for a forbidden 'L'; e.g. interfaces (0,1,2)/(2,2,5), old paths -1 1 3 / 0 3 1, backward run 0 3 -> new [0-] path 3 0 3) is recorded once per run under coverage.observations and documented by theorem C11_start_cond_L_only_refuted; it is neither a violation nor a known finding. The start-side clause of the oracle is computed from the order values and the case's own interfaces/start condition, not from the model and not from check_interfaces. Real-file family: oracle only (the Coq model has no file system: a frame is an abstract tag there, so file naming, e.g. which counter numbers the trajectory files of a propagation, is outside the model and is checked on the implementation alone); the engines are real TurtleMDEngine objects with all their file I/O (dump_config/_extract_frame, reversed-velocity files, trajectory/msg/conf files named by EngineBase.propagate), only the integrator class is turtlemd's VelocityVerlet handed in through a one-line adapter (TurtleMDEngine passes every integrator a seed argument that VelocityVerlet does not take; with the example's LangevinInertia integrator at small friction (gamma 1e-5, beta 1e12) a double swap restores the sequences only to about 1e-5, measured); each swap runs in a fresh worker directory shared by the two engine objects (infretis moves accepted files out and cleans the directory between moves), both objects are fresh at the first swap (equal numbers of propagations started) and have each started two more at the swap back; tolerance 1e-6 against the 9 decimals of the xyz files; lambda_minus_one and unequal length limits are not part of this family (covered by the scripted families); the two-levels-of-theory quantis scenarios use accept_all (the energy rule is covered by the scripted family), the one-dynamics ones the real rule with the draw 0.5.",
     "design_ref": "4/C11",
 }
 LEVEL = "proof"
@@ -2074,7 +2074,7 @@ def run(ctx):
                        "outcome fixed by the statement for EVERY ordered pair, maxlength[0-] < = > maxlength[0+] alike (each path against its own limit: ACC / BTX / FTX and the exact complete paths); "
                        "start-condition family: finite lambda_-1 = 0 for [0-] x start_cond of [0-] in {'R', 'L', ['L','R']} x {retis, QuanTIS with 5 energy/beta/draw settings over one and two levels of theory} x "
                        "backward runs from old[0+][0] ending left of lambda_-1 (4) / right of lambda_0 (3) / never (2) x 4 forward patterns x 2 old [0-] x 3 old [0+] paths x limits "
-                       "{(15,15), (n0,15), (n0+1,n1+1), (n0+1,n1)}: outcome fixed by the statement (ACC / BTX / FTX / 0-L / any rejection), see start_cond_family; "
+                       "{(15,15), (n0,15), (n0+1,n1+1), (n0+1,n1)}: outcome fixed by the statement (ACC / BTX / FTX / 0-L; the start-side clause applies to 'R' and ['L','R'], the 'L'-alone cases run the lock-step and every other clause), see start_cond_family and observations; "
                        "degenerate inputs (empty/short paths, missing streams, dishonest first frames); "
                        "wf/ss moves with interface_cap absent/4/5 and the draw on a grid around the ratio; quantis with dyadic energies, three beta pairs, "
                        "draws on a grid around min(1,E), accept_all on/off.  A case is distinct by its request line; all exercise a modelled branch. "
